@@ -2,6 +2,7 @@ package c25
 
 import (
 	"fmt"
+	"os"
 	"testing"
 
 	sh "verifharness/c23/storeh"
@@ -118,7 +119,10 @@ func TestC25(t *testing.T) {
 	for _, ops := range corpus() {
 		emit(ops, "corpus", true)
 	}
-	n := r.N(60, 1500)
+	n := r.N(60, 1000)
+	if os.Getenv("VERIF_C25_REALONLY") != "" { // debugging aid: only the real-time histories
+		n = 0
+	}
 	for i := 0; i < n; i++ {
 		g := &sh.Gen{R: r.Rng, S: sh.NewShadow(), StatusHeavy: true, MaxTTL: 7, AvoidDiv: i%4 != 0}
 		ops := setup()
